@@ -71,6 +71,9 @@ func c18(args []string) error {
 	defer ev.Close()
 	rng := rand.New(rand.NewSource(int64(seed)))
 	maps := append(fixedMaps(3), seededMaps(rng, 3, nmaps)...)
+	// very fine lattices: every product of two coordinate differences is still exact, but tiny (2^-60 ... 2^-52): an absolute
+	// tolerance on turns or areas mistakes them for zero
+	maps = append(maps, Map{"2^-30", math.Ldexp(1, -30), 0, 0}, Map{"2^-26", math.Ldexp(1, -26), 0, 0})
 
 	var evals, mism, rows int64
 	var mu sync.Mutex
